@@ -618,7 +618,8 @@ def build(repo, sanitize=False):
     have_hook = 'verif_pop_hook' in hsrc
     structs, sigs, py = translate(src)
     builddir = tempfile.mkdtemp(prefix='depccg_pyxlite_')
-    atexit.register(shutil.rmtree, builddir, True)
+    from vlib import env as _env
+    _env.register_tempdir(builddir)
     cpp = os.path.join(builddir, 'shim.cpp')
     with open(cpp, 'w') as f:
         f.write(gen_shim(structs, have_hook))
